@@ -198,4 +198,15 @@ theorem C11_source_skeletons_mount :
     Gen.Skel.fn_queryLock = Expected.Skel.fn_queryLock :=
   ⟨rfl, rfl, rfl, rfl⟩
 
+/-- further regenerated control skeletons (fifth round of seeded changes: code no earlier change had
+    touched): DatabaseHandle_Lock, DatabaseHandle_Unlock, DatabaseHandle_QueryLock, SHMHandle_Lock, SHMHandle_Unlock, SHMHandle_QueryLock -/
+theorem C11_source_skeletons_5 :
+    Gen.Skel.DatabaseHandle_Lock = Expected.Skel.DatabaseHandle_Lock ∧
+    Gen.Skel.DatabaseHandle_Unlock = Expected.Skel.DatabaseHandle_Unlock ∧
+    Gen.Skel.DatabaseHandle_QueryLock = Expected.Skel.DatabaseHandle_QueryLock ∧
+    Gen.Skel.SHMHandle_Lock = Expected.Skel.SHMHandle_Lock ∧
+    Gen.Skel.SHMHandle_Unlock = Expected.Skel.SHMHandle_Unlock ∧
+    Gen.Skel.SHMHandle_QueryLock = Expected.Skel.SHMHandle_QueryLock :=
+  ⟨rfl, rfl, rfl, rfl, rfl, rfl⟩
+
 end LiteFSVerif.C11
